@@ -651,6 +651,43 @@ def shared_state_across_nesting(facts, ts):
     return None
 
 
+def descends_into_elements(facts, ts):
+    """A second form of the same evidence, without recursion: the array arm (or a helper in its reach, not through the
+    string-form function) opens an *element* as an Array — a value it got from `next()` / as the parameter of a
+    per-element closure, not its own parameter — and iterates over that payload or puts it on a worklist itself.  The
+    elements of the nested array are then enumerated by the enclosing walk (one separator state, one buffer), so the
+    nested array does not contribute its own string form: an empty nested array loses its slot."""
+    from .core import expr_mentions
+    seen, todo = set(), [ts.key]
+    while todo:
+        k = todo.pop()
+        if k in seen:
+            continue
+        seen.add(k)
+        b = facts.body(k)
+        if b is None:
+            continue
+        for bi, t in b.calls():
+            c = callee_of(t)
+            if c and c.get("local") and c.get("key") != ts.key:
+                todo.append(c["key"])
+            p = callee_path(t) or ""
+            if not re.search(r"::(iter|into_iter|iter_mut|push|push_back|push_front|extend|extend_from_slice|append|insert)$", p):
+                continue
+            for a in t["args"]:
+                e = b.xtrace(a) if hasattr(b, "xtrace") else b.trace(a)
+
+                def opened_element(y):
+                    if not (isinstance(y, tuple) and y and y[0] == "downcast" and y[2] == "Array"):
+                        return False
+                    return expr_mentions(y[1], lambda z: (z[0] == "call" and z[1] and re.search(r"::(next|next_back|pop|pop_front|pop_back)$", z[1].get("path", "")) is not None) or z[0] == "carg")
+                if expr_mentions(e, opened_element):
+                    return "%s opens an element of the array as an Array and walks its payload itself (%s at %s): the nested array's elements are enumerated by the enclosing walk, so an array element does not contribute its own string form" % (k.split("::", 1)[1], p.rsplit("::", 1)[-1], b.where(bi))
+        for ck in [x.key for x in facts.bodies.values() if x.kind == "closure" and x.key.startswith(k + "::{closure#")]:
+            todo.append(ck)
+    return None
+
+
 def expr_mentions_array_payload(b, a):
     from .core import expr_mentions
     return expr_mentions(b.trace(a), lambda y: y[0] == "downcast" and y[2] == "Array")
